@@ -434,6 +434,7 @@ impl Response {
                 // and add a `Content-Length` header.
                 let mut transfer_encodings =
                     self.headers.header_tokens("Transfer-Encoding");
+                transfer_encodings.retain(|coding| !coding.is_empty());
                 transfer_encodings.pop();
                 if transfer_encodings.is_empty() {
                     self.headers.remove_header("Transfer-Encoding");
